@@ -76,6 +76,12 @@ func runC14(cx *lib.Ctx) {
 	scanAll := func(src []byte, r *lib.Rand) {
 		checkRangeScanner(cx, "lines", src, randomStart(r))
 		checkRangeScanner(cx, "words", src, randomStart(r))
+		// split functions whose tokens end in a line terminator
+		checkRangeScanner(cx, "lines-keep", src, randomStart(r))
+		if len(src) <= 400 {
+			checkRangeScanner(cx, "bytes", src, randomStart(r))
+			checkRangeScanner(cx, "runes", src, randomStart(r))
+		}
 		res.Count("rangescan-input")
 	}
 
